@@ -75,16 +75,18 @@ def exact(S, n, m, pattern, policy, cfg, second_policy):
                 table[i, i] -= sig.c
         SH.put(table, K, check=True)
         mall = as_sym_arr(SH.get(model.mean_module(labels(0, N))))
-        outs = {}
+        outs = []
         model.eval(); likelihood.eval()
         pols = [policy] + ([second_policy] if second_policy else [])
-        for pol in pols:
+        if policy != "ignore":
+            pols.append(policy)  # and the first policy once more: its cached quantities must still carry the NaN markers
+        for k_, pol in enumerate(pols):
             with gpytorch.settings.observation_nan_policy(pol), settings_ctx(cfg):
                 out = S.must_not_raise("prediction under policy %s" % pol, lambda: model(xs))
                 if pol == "ignore":
                     _ = out.mean  # default policy first (NaNs propagate, nothing is claimed about this output)
                     continue
-                outs[pol] = (out.mean, out.covariance_matrix)
+                outs.append((pol, k_, out.mean, out.covariance_matrix))
         mll_t = None
         if policy == "mask":
             model.train(); likelihood.train()
@@ -103,8 +105,8 @@ def exact(S, n, m, pattern, policy, cfg, second_policy):
     Bm = spd_solve(Go, Kso.T)
     Mref = (Kso @ alpha).reshape(-1) + mall[n:]
     Cref = Kss - Kso @ Bm
-    for pol, (mean_t, cov_t) in outs.items():
-        tag = "policy=%s%s " % (pol, "" if pol == policy else " (after %s on the same model)" % policy)
+    for pol, k_, mean_t, cov_t in outs:
+        tag = "policy=%s%s " % (pol, "" if k_ == 0 else " (prediction %d on the same model, after %s)" % (k_ + 1, ", ".join(pols[:k_])))
         S.prove_eq(mean_t, Mref, tag + "posterior mean = conditional on the observed points only")
         S.prove_eq(cov_t, Cref, tag + "posterior covariance = conditional on the observed points only")
     if mll_t is not None:
@@ -241,7 +243,7 @@ def multitask_exact(S, n, t, m, pattern, policy, second_policy=None, cfg=None, t
         S.prove_eq(mll_t, ref, "multitask MLL under mask = log N(y_obs) / (number of observed values)")
 
 
-def exact_batched(S, n, m, pattern, cfg):
+def exact_batched(S, n, m, pattern, cfg, mll=False):
     """batched exact GP whose batch elements miss DIFFERENT observations (policy 'fill', the one documented for per-element
        patterns): element b of the posterior = conditional on element b's own observed points"""
     pats = [[bool(int(c)) for c in row] for row in pattern.split("|")]
@@ -284,6 +286,27 @@ def exact_batched(S, n, m, pattern, cfg):
         with gpytorch.settings.observation_nan_policy("fill"), settings_ctx(cfg):
             out = S.must_not_raise("batched prediction under policy fill", lambda: model(xs))
             mean_t, cov_t = out.mean, out.covariance_matrix
+        mll_t = None
+        if mll:
+            model.train(); likelihood.train()
+            mll_mod = gpytorch.mlls.ExactMarginalLogLikelihood(likelihood, model)
+            with gpytorch.settings.observation_nan_policy("mask"):
+                mll_t = S.must_not_raise("batched MLL under mask", lambda: mll_mod(model(x), y))
+    if mll_t is not None:
+        # policy 'mask' deletes a point for the WHOLE batch as soon as one element misses it: every element is scored on the
+        # points observed in all elements, and divided by their number
+        from symten.ops import _det, gauss_inverse_solve
+        U = [i for i in range(n) if not any(pats[b][i] for b in range(B))]
+        nu = len(U)
+        ref = np.empty(B, dtype=object)
+        for b in range(B):
+            lab_of = {tr: pos for pos, tr in enumerate(orders[b][1])}
+            idx = [lab_of[i] for i in U]
+            A = J[b][np.ix_(idx, idx)]
+            r = np.array([Y[b, i] - mall[b][lab_of[i]] for i in U], dtype=object).reshape(nu, 1)
+            quad = np.sum(r * gauss_inverse_solve(A, r))
+            ref[b] = (quad + sym_log(_det(A)[()]) + Sym.const(nu * LOG2PI)) * Sym.const(-0.5) / Sym.const(float(nu))
+        S.prove_eq(mll_t, ref, "batched MLL under mask = log N(y on the points observed in every element) / their number")
     for b in range(B):
         obs, order = orders[b]
         no = len(obs)
@@ -377,6 +400,11 @@ def scenarios(tier, seed):
     for pat in (["01|10", "00|10"] if tier == "quick" else ["01|10", "00|10", "10|00", "011|100", "010|000", "001|010|100"]):
         add("exact_batched", n=len(pat.split("|")[0]), m=1, pattern=pat, cfg={})
     add("exact_batched", n=2, m=2, pattern="10|01", cfg={"fpv": True})
+    add("exact_batched", n=2, m=1, pattern="00|10", cfg={}, mll=True)
+    add("exact_batched", n=3, m=1, pattern="010|000", cfg={}, mll=True)
+    if tier != "quick":
+        add("exact_batched", n=3, m=1, pattern="100|010", cfg={}, mll=True)
+        add("exact_batched", n=3, m=1, pattern="001|000|001", cfg={}, mll=True)
     mt = ["00|00", "01|00", "10|01", "00|11"] if tier == "quick" else ["00|00", "01|00", "10|00", "10|01", "01|01", "00|11", "11|01", "01|11", "011|000"]
     for pat in mt:
         t = len(pat.split("|")[0])
